@@ -92,8 +92,13 @@ fn core_part(set: &dyn DynSet, seed: u64, iters: u64) -> Result<(String, u64), S
             }
             Err(_) => a.flag("rotted_pk_is_err", true),
         }
-        let mut failing = SimRng::new(vec![0; 64], vec![(0, crate::simrng::RngFault::ErrPartial(5))]);
-        a.flag("rng_failure_is_err", sk.sign_rng(&mut failing, &msg, &ctx, MODES[0]).is_err());
+        // a failing RNG device must be reported by every entry point in every configuration
+        for mode in MODES {
+            let mut failing = SimRng::new(vec![0; 64], vec![(0, crate::simrng::RngFault::ErrPartial(5))]);
+            a.flag("rng_failure_is_err", sk.sign_rng(&mut failing, &msg, &ctx, mode).is_err());
+        }
+        let mut failing = SimRng::new(vec![0; 64], vec![(0, crate::simrng::RngFault::ErrFull)]);
+        a.flag("keygen_rng_failure_is_err", set.keygen_rng(&mut failing).is_err());
     }
     // bulk signing with one key: rare per-signature events (a candidate exactly on a rejection bound,
     // a coefficient on a rounding boundary) differ between configurations only once in 10^2..10^4 signatures
